@@ -8,8 +8,12 @@ THEOREMS = ['C06_feed_tracks_coord', 'C06_advance_to_tracks_coord', 'C06_from_te
             'C06_dyn_token_coords', 'C06_meta_span', 'C06_meta_passthrough', 'C06_meta_span_inlined_token_refuted',
             'C06_test_newline_false_refuted', 'C06_spans_ordered_nested', 'C06_example',
             'C06_tree_coords_exact', 'C06_tree_container_span', 'C06_tree_own_span', 'C06_tree_example',
-            'C06_empty_child_example']
-GEN_DEPS = ['LineCounter', 'LexStep', 'DynStep']
+            'C06_empty_child_example',
+            'C06_propagate_regenerated', 'C06_propagate_no_attribute_error', 'C06_pp_alias_safe', 'C06_fork_keeps_counter',
+            'C06_lexer_coords_fork', 'C06_recover_skip_tracks_coord', 'C06_lexer_coords_recovering',
+            'C06_token_plumbing_keeps_positions', 'C06_recover_example', 'C06_tree_coords_exact_earley',
+            'C06_dyn_tree_coords', 'C06_dyn_tree_example']
+GEN_DEPS = ['LineCounter', 'LexStep', 'DynStep', 'PropPos', 'TokenFields', 'CounterCopy']
 RULE = ('random token-soup grammars (1-4 kept + 0-2 ignored terminals from a regex fragment, 1-2 newline-capable '
         'terminals spelled \\n, \\r?\\n, [\\n], \\s, [^...], \\W, \\D, [\\t-\\r], (?s:.), \\x0a, [\\x00-\\x1f], global DOTALL; '
         'kept or ignored) and a fixed structured grammar (inlined ?rules, _rules, filtered punctuation, [optional] '
@@ -17,7 +21,12 @@ RULE = ('random token-soup grammars (1-4 kept + 0-2 ignored terminals from a reg
         'arbitrary positions x {lalr/basic, lalr/contextual, earley/basic, earley/dynamic, earley/dynamic_complete} x '
         '{str, bytes} x {whole text, TextSlice window of prefix+text+suffix} x {parse, lex, lex(dont_ignore), scan}; '
         'non-trivial = distinct (grammar, configuration, representation, window, api, text) producing >= 2 tokens one '
-        'of which lies on line >= 2')
+        'of which lies on line >= 2; [round 12, always run] forks: parse_interactive + k tokens + copy()/copy.copy/'
+        'as_immutable, the FORK lexing the rest, k = 0, 1, n and the first/last mid-line token of every line >= 2, '
+        'str/bytes/windows, basic/contextual; on_error recovery: grammars without a newline terminal x inputs with stray '
+        'unlexable characters incl. newlines, handler accepting every UnexpectedCharacters; callable propagate_positions '
+        '(6 named filters) under lalr/contextual, earley/basic, earley/dynamic; __lark_meta__ children produced by an '
+        'embedded transformer (one answering None)')
 TRUSTED_BASE = ['coq/Pos/PosBase.v: reading of str/bytes count, rindex, index, slicing as list functions (validated on '
                 'every recorded LineCounter call)',
                 'translator/gen_positions.py templates pin the statement skeletons of LineCounter.__init__/feed/advance_to/'
@@ -25,8 +34,15 @@ TRUSTED_BASE = ['coq/Pos/PosBase.v: reading of str/bytes count, rindex, index, s
                 'token.end_* assignments of xearley.Parser._parse',
                 'Python re is an oracle (scan): only "a match of length n at pos inside [pos, endpos)" is assumed; lexer '
                 'callbacks other than the type-only UnlessCallback are not modelled',
-                'PropagatePositions model (coq/Pos/MetaSpan.v) is hand-written and tied by correspondence only; '
-                '__lark_meta__ children and a callable propagate_positions filter are not modelled']
+                'translator/gen_positions.py (round 12) also pins PropagatePositions.__init__/__call__/_pp_get_meta, '
+                'make_propagate_positions, Meta, Tree.__init__/meta, Token._future_new/__new__/new_borrow_pos/_future_update/'
+                '__deepcopy__/__reduce__, UnexpectedCharacters.__init__ (line/column/pos_in_stream), LineCounter.__slots__ and its '
+                'copy protocol, LexerState/LexerThread.__copy__, LALR_Parser.parse (on_error loop), and rejects any write to a '
+                'LineCounter field outside class LineCounter anywhere under lark/',
+                'coq/Pos/RawMeta.v: reading of getattr(src, name, default) with an eagerly evaluated default, hasattr, and of '
+                'the three-way classification of children in _pp_get_meta; a Token attribute that is None is outside the model',
+                'Earley routes: the derivation handed to the callbacks is any derivation tree over the lexer tokens; the forest '
+                'walk itself (which derivation) is C03/C05/C20 business']
 ASSUMPTIONS = ['input is ASCII/latin-1 (one character = one byte); newline is "\\n"',
                'meta_span holds inside the class [good]: an inlined ?rule that returns a bare Token matched no other '
                '(filtered) token - outside it finding F23 applies']
@@ -35,7 +51,7 @@ ALLOWED_AXIOMS = []
 
 def witness(g, parser, lexer, text, rep, window, api, extra):
     return dict(grammar=g, parser=parser, lexer=lexer, text=text, rep=rep, window=list(window) if window else None,
-                api=api, extra=[[k, int(v)] for k, v in extra])
+                api=api, extra=[[k, v if isinstance(v, str) else int(v)] for k, v in extra])
 
 
 def run_witness(w):
@@ -55,12 +71,16 @@ def oracle(out):
             bad.append(('token-coordinates', m))
     for m in P.meta_violations(out):
         bad.append(('tree-meta', m))
-    if out['kind'] == 'ok':
+    special = any(c['custom'] or c['filtered'] for c in out['tracer'].pp_calls)
+    if out['kind'] == 'ok' and not special:      # with a node_filter / __lark_meta__ a child may lie outside its parent
         from lark import Tree
         if isinstance(out['result'], Tree):
             nb = []
             P.spans_nested(out['result'], nb)
             bad += [('tree-meta-nesting', m) for m in nb]
+    if out['kind'] == 'error' and out['sig'][0] == 'AttributeError' and not any(c['custom'] for c in out['tracer'].pp_calls):
+        # PropagatePositions read a position attribute that is not there (a meta with one end only)
+        bad.append(('tree-meta', 'building the tree raised AttributeError: %s' % str(out['error'])[:120]))
     if out['kind'] == 'error' and out['sig'][0] == 'UnexpectedCharacters':
         _, pos, ln, col = out['sig'][:4]
         if (ln, col) != P.coord(out['buf'], pos):
@@ -80,6 +100,12 @@ F23_CASES = [
     ('F23:inlined-token-loses-container', 'start: atom "x"\n?atom: "(" NUM ")"\nNUM: /[0-9]+/\n', '(1)x'),
     ('F23:inlined-token-loses-container', 'start: "y" atom\n?atom: "(" NUM ")"\nNUM: /[0-9]+/\n', 'y(1)'),
 ]
+
+
+# an EMPTY child tree handed through an inlined rule as the LAST / FIRST positioned child (the boundary family only has
+# it between two tokens): where looking up last_meta after res_meta was written makes the result its own last child
+EMPTY_EDGE = ('start: item+\n?item: "[" emp "]" | "<" emp | emp2 ">" | NAME -> name\nemp:\nemp2:\nNAME: /[a-z]+/\n%ignore /[ \\n]+/\n',
+              ['<', '>', '<>', 'a<', '>a', '[]<', '<\n>', '< <\n<'])
 
 
 def exotic(col):
@@ -147,6 +173,62 @@ def correspond(ctx):
                     if win is not None and lexer in P.DYNAMIC:
                         continue
                     col.run('boundary', g, parser, lexer, text, 'bytes' if (win and win[0] == 'ab') else 'str', win, 'parse', ())
+    for text in EMPTY_EDGE[1]:
+        for parser, lexer in P.CONFIGS:
+            col.run('boundary', EMPTY_EDGE[0], parser, lexer, text, 'str', None, 'parse', ())
+    # 2c. forks: the copied lexer state lexes the rest (systematic fork points, three ways of forking)
+    for g, texts in P.FORK_GRAMMARS + [(P.BOUNDARY[0][0], ['(1\n+2)*\n(3)', '( 1 )\n * (2\n + 3)'])]:
+        for ti, text in enumerate(texts):
+            for lexer in ('basic', 'contextual'):
+                for rep, win in (('str', None), ('bytes', None), ('str', ('x\n y', '\n')), ('bytes', ('\n', ''))):
+                    if win is not None and lexer == 'basic' and ti % 2:
+                        continue
+                    lk = P.get_lark(g, 'lalr', lexer, rep == 'bytes')
+                    if isinstance(lk, Exception):
+                        continue
+                    inp, buf, a = P.make_input(text, rep, win)
+                    for k in P.fork_points(lk, inp, buf):
+                        mode = P.FORK_MODES[(k + ti) % 3]
+                        col.run('fork', g, 'lalr', lexer, text, rep, win, 'forkat:%d:%s' % (k, mode), ())
+    for gi in range(ctx.scale(3, 12) * mult):
+        g, comments = P.gen_struct_grammar(rng)
+        for ii in range(ctx.scale(4, 10)):
+            text = P.gen_struct_input(rng, comments)
+            lexer = rng.choice(['basic', 'contextual'])
+            rep = rng.choice(['str', 'bytes'])
+            win = (rng.choice(P.WINDOW_PARTS), rng.choice(P.WINDOW_PARTS)) if rng.random() < 0.4 else None
+            lk = P.get_lark(g, 'lalr', lexer, rep == 'bytes')
+            if isinstance(lk, Exception):
+                continue
+            ks = P.fork_points(lk, P.make_input(text, rep, win)[0], None)
+            for k in rng.sample(ks, min(2, len(ks))):
+                col.run('fork', g, 'lalr', lexer, text, rep, win, 'forkat:%d:%s' % (k, rng.choice(P.FORK_MODES)), ())
+    # 2d. on_error recovery: stray characters, newlines among them, stepped over by the parser's recovery loop
+    for gi, (g, groups) in enumerate(P.RECOVER_GRAMMARS):
+        texts = (P.RECOVER_FIXED if gi == 0 else ['a\n(b\n c)\n\n; $ (d)', '\n\na']) + \
+                [P.gen_recover_input(rng, groups) for _ in range(ctx.scale(8, 40) * mult)]
+        for ti, text in enumerate(texts):
+            for lexer in ('basic', 'contextual'):
+                rep = 'bytes' if (ti + (lexer == 'basic')) % 2 else 'str'
+                col.run('recover', g, 'lalr', lexer, text, rep, None, 'on_error', ())
+                if ti % 3 == 0:
+                    col.run('recover', g, 'lalr', lexer, text, 'str' if rep == 'bytes' else 'bytes', ('q\n\nr', '\n'), 'on_error', ())
+    # 2e. callable propagate_positions: the span is taken over the children the filter accepts
+    sg, _ = P.gen_struct_grammar(rng)
+    ftexts = ['a = (1);\n{ f(2, x); }', '[ ]\n<{ v = @!7 + (2); }>', 'go();\nfoo = 1 + 23 + (a);', '{ { [ ] } }\n a = 1;',
+              'f((1), 2,\n 3);'] + [P.gen_struct_input(rng, []) for _ in range(ctx.scale(3, 10))]
+    for name in sorted(P.PP_FILTERS):
+        for parser, lexer in (('lalr', 'contextual'), ('earley', 'basic'), ('earley', 'dynamic')):
+            for text in ftexts:
+                col.run('filter', sg, parser, lexer, text, 'str', None, 'parse', (('pp_filter', name),), all_pp=True)
+            for bg, btexts in P.BOUNDARY[:2]:
+                for text in btexts[:4]:
+                    col.run('filter', bg, parser, lexer, text, 'str', None, 'parse', (('pp_filter', name),), all_pp=True)
+    # 2f. children that offer positions through __lark_meta__ (results of an embedded transformer)
+    for lexer in ('basic', 'contextual'):
+        for text in P.CUSTOM_TEXTS:
+            col.run('custom-meta', P.CUSTOM_GRAMMAR, 'lalr', lexer, text, 'str', None, 'parse', (('transformer', 'boxing'),),
+                    all_pp=True)
     # 3. fixed exotic witnesses (F1, F2 repaired: these pass; F23 is a listed finding)
     exotic(col)
     col.check()
